@@ -3,12 +3,27 @@
 import json, os, glob
 V = os.path.dirname(os.path.dirname(os.path.abspath(__file__)))
 res = {}
+via = {}
 for l in open(os.path.join(V, "mutants", "RESULTS.tsv")):
     f = l.rstrip("\n").split("\t")
     if len(f) >= 4 and f[1] == "seeded":
         res[f[2]] = f
+    if len(f) >= 4 and f[1].startswith("seeded-via-"):
+        via[f[2]] = f
+DEMOS = {}
+dl = os.path.join(V, "seeded", "DEMOS.log")
+if os.path.exists(dl):
+    for l in open(dl):
+        w = l.split()
+        if len(w) >= 3 and w[1].startswith("base=") and w[2].startswith("patched="):
+            b, pz = w[1][5:], w[2][8:]
+            if b == "0" and pz == "1":
+                DEMOS[w[0]] = "re-run by me with tools/run_demo.sh on a scratch copy of the current tree: exit 0 (PASS) without the change, exit 1 (FAIL) with seeded/%s/patch.diff applied" % w[0]
+            elif b == "0" and pz == "0":
+                DEMOS[w[0]] = "re-run by me with tools/run_demo.sh on the current (repaired) tree: PASS both without and with the change - a later fix: commit took the mechanism it needs away (see note)"
 NOTES = {
-    "C20-A": "behaviour-preserving since fix c4a40a8 (F12) removed the cooperating site it needs; with that fix reverted the check reports it",
+    "C20-A": "was neutralised when fix c4a40a8 (F12) stopped puts on empty slots; detected again since the C20 generator learnt to make a create fail for lack of memory (the failed create leaves the claimed slot with a reference)",
+    "C14-D": "the change is in the dump reader (qb_log_blackbox_print_from_file), which C14's check does not exercise (it calls the encoder/decoder directly); it is detected by C15's check, whose round trip goes through the dump file (seeded/C14-D/also_check)",
     "C04-B": "lost its callback-order effect when fix 0a166c4 (F36) made the incomplete disconnect idempotent (it now only mis-counts statistics); it was detected before that fix",
 }
 for d in sorted(glob.glob(os.path.join(V, "seeded", "C??-?"))):
@@ -18,13 +33,15 @@ for d in sorted(glob.glob(os.path.join(V, "seeded", "C??-?"))):
     ported = os.path.exists(os.path.join(d, "patch.orig.diff")) and open(os.path.join(d, "patch.orig.diff")).read() != open(os.path.join(d, "patch.diff")).read()
     m["origin"] = "written by a fresh sub-agent that was given only the property text and its own scratch worktree of /repo (nothing from /verif)"
     m["confirmed_by_me"] = {
-        "demonstration": "agent's demo (demo.c / demo.sh, see README.txt) re-run by me on a scratch copy with and without patch.orig.diff before keeping the change: PASS without, FAIL with",
+        "demonstration": DEMOS.get(name, "run by the sub-agent on its worktree (PASS on the unchanged sources, FAIL with the change, see 'ran'); my generic runner tools/run_demo.sh could not build/run this demo as it is"),
         "patch_applied": "patch.diff" + (" (ported by hand to the current tree after fix: commits changed its context; patch.orig.diff is the agent's original)" if ported else ""),
         "command": f"tools/mutant.sh {name[:3]} seeded/{name}/patch.diff quick   (scratch copy of /repo/lib,include,tools + patch -p1, then ./run {name[:3]} quick with VERIF_REPO pointing at the copy)",
         "verdict": (r[3] if r else "not run"),
         "seconds": (int(r[4]) if r and r[4].isdigit() else None),
         "first_violation": (r[5] if r and len(r) > 5 else ""),
     }
+    if name in via:
+        m["confirmed_by_me"]["also_run_against"] = {"check": via[name][1][11:], "verdict": via[name][3], "first_violation": via[name][5] if len(via[name]) > 5 else ""}
     if name in NOTES: m["confirmed_by_me"]["note"] = NOTES[name]
     json.dump(m, open(p, "w"), indent=1)
     print(name, m["confirmed_by_me"]["verdict"], "ported" if ported else "")
